@@ -612,7 +612,9 @@ class GeminiServerProtocol(asyncio.Protocol):
             try:
                 task = asyncio.create_task(
                     self.middleware.process_request(
-                        self.titan_request.normalized_url,
+                        # Base URL only: the ;size=..;mime=.. parameters are not
+                        # part of the location the rules apply to
+                        self.titan_request.parsed_url.normalized,
                         client_ip,
                         self.titan_request.client_cert_fingerprint,
                     )
